@@ -238,6 +238,11 @@ JudgeCall(e) ==
        \cup (IF OperandsKept(Discrete(N), cur.outs, e.in, e.ref.after) THEN {} ELSE {"mutated/ref"})
        \cup Oracle(e)
 
+\* An operand of a component type that points INTO the receiver object (z.MulByE2(z, &z.B0)). The property speaks of operands
+\* being the same object, not of overlapping ones, and the unmodified library is not safe under interior pointers in its sparse
+\* multiplications (MulBy01 / MulBy014 of the sextic and higher towers give other values): these runs are recorded, never judged.
+JudgeInterior(e) == IF e.key # cur.key \/ Len(e.in) # N THEN {"protocol"} ELSE {}
+
 MethodRec(e) == [key |-> e.key, cls |-> e.cls, outs |-> {e.outs[i] : i \in 1..Len(e.outs)}, tys |-> e.tys, m |-> e.m, ty |-> e.ty]
 JudgeMethod(e) ==
   (IF cur # NoMethod THEN {"protocol"} ELSE {})
@@ -254,6 +259,7 @@ Step == /\ HasNext
            CASE e.op = "Method" -> Advance(JudgeMethod(e)) /\ Begin(MethodRec(e))
              [] e.op = "Call" -> /\ Advance(JudgeCall(e))
                                  /\ IF LegalCall(e) THEN Exercise(e.part) ELSE UNCHANGED <<cur, seen, tally>>
+             [] e.op = "Interior" -> Advance(JudgeInterior(e)) /\ UNCHANGED <<cur, seen, tally>>
              [] e.op = "End" -> Advance(JudgeEnd(e)) /\ EndMethod
              [] OTHER -> Advance({"unknown-op"}) /\ UNCHANGED <<cur, seen, tally>>
 \* coverage line: methods closed, patterns exercised, methods closed with a pattern missing, a method left open
